@@ -1,10 +1,145 @@
 import SkaModel.Core.Proto
+import SkaModel.Core.Classifier
 
-/-! Driver commands for the `Classifier` model family. One self-contained case per line. -/
+/-! Driver commands for the `Classifier` model family (C11). One self-contained case per line.
+Matrices travel row-major; floats as bit patterns. -/
 
 namespace Ska.Drv.Classifier
-open Ska Ska.Proto
+open Ska Ska.Classifier Ska.Proto
 
-def handlers : List (String × P String) := []
+def showMat (M : List (List Float)) : String := " ; ".intercalate (M.map showFloats)
+
+def showClfErr : ClfErr → String
+  | .prior => "err prior"
+  | .shape => "err shape"
+
+def showLabels (l : List (Option Int)) : String :=
+  " ".intercalate (l.map (fun x => match x with | some c => toString c | none => "none"))
+
+/-- `s <c>` or `a <m> p1..pm` -/
+def priorSpec : P (PriorSpec Float) := do
+  match (← tok) with
+  | "s" => do let c ← float; pure (.scalar c)
+  | "a" => do let l ← listOf float; pure (.array l)
+  | _ => failure
+
+def mat (p : P α) (r c : Nat) : P (List (List α)) := do
+  let flat ← many p (r * c)
+  pure (chunk c r flat)
+
+/-- `normfreq <k> <n> F(n*k) <prior-spec>` : `ClassFrequencyEstimator.predict_proba` from frequencies. -/
+def cmdNormFreq : P String := do
+  let k ← nat; let n ← nat
+  let F ← mat float n k
+  let ps ← priorSpec
+  match classPrior k ps with
+  | .error e => pure (showClfErr e)
+  | .ok prior => pure ("ok " ++ showMat (normalizeFreq k F prior))
+
+/-- `pwcproba <k> <n> <m> K(n*m) V(m*k) <prior-spec>` : `F = K @ V`, then normalisation.
+Output `ok F | P`. -/
+def cmdPwcProba : P String := do
+  let k ← nat; let n ← nat; let m ← nat
+  let K ← mat float n m
+  let V ← mat float m k
+  let ps ← priorSpec
+  let F := pwcFreq k K V
+  match classPrior k ps with
+  | .error e => pure (showClfErr e)
+  | .ok prior => pure ("ok " ++ showMat F ++ " | " ++ showMat (normalizeFreq k F prior))
+
+/-- `pwcproba_nn <k> <n> <m> K V <nn> idx(n*nn) <prior-spec>` : the `n_neighbors` branch. -/
+def cmdPwcProbaNN : P String := do
+  let k ← nat; let n ← nat; let m ← nat
+  let K ← mat float n m
+  let V ← mat float m k
+  let nn ← nat
+  let idx ← mat nat n nn
+  let ps ← priorSpec
+  let F := pwcFreqNeighbors k K V idx
+  match classPrior k ps with
+  | .error e => pure (showClfErr e)
+  | .ok prior => pure ("ok " ++ showMat F ++ " | " ++ showMat (normalizeFreq k F prior))
+
+/-- `mmcproba <k> <m> <t> R(t*m) V(t*k) <n> S(n*m) <prior-spec>` : mixture-model classifier. -/
+def cmdMmcProba : P String := do
+  let k ← nat; let m ← nat; let t ← nat
+  let R ← mat float t m
+  let V ← mat float t k
+  let n ← nat
+  let S ← mat float n m
+  let ps ← priorSpec
+  let Fc := mmcComponents k m R V
+  let F := mmcFreq k S Fc
+  match classPrior k ps with
+  | .error e => pure (showClfErr e)
+  | .ok prior => pure ("ok " ++ showMat F ++ " | " ++ showMat (normalizeFreq k F prior))
+
+/-- `predict <k> cls(k ints) <n> P(n*k) C(k*k) noise(n*k)` : `SkactivemlClassifier.predict`.
+Output `costs | labels`. -/
+def cmdPredict : P String := do
+  let k ← nat
+  let cls ← many int k
+  let n ← nat
+  let Pm ← mat float n k
+  let C ← mat float k k
+  let noise ← mat float n k
+  pure (showMat (expectedCosts k Pm C) ++ " | " ++ showLabels (predictDecision cls Pm C noise))
+
+/-- `decide <k> cls(k ints) <n> costs(n*k) noise(n*k)` : the decision step alone on captured costs
+(`rand_argmin(costs, axis=1)` + decoding). -/
+def cmdDecide : P String := do
+  let k ← nat
+  let cls ← many int k
+  let n ← nat
+  let costs ← mat float n k
+  let noise ← mat float n k
+  pure (showLabels (decode cls (randArgminRows (costs.map (fun r => r.map some)) noise)))
+
+/-- `skproba <k> cls(k ints) <fitted> <m> est(m ints) <n> <w> estP(n*w, nan allowed) counts(k)`
+: `SklearnClassifier.predict_proba`. Output `ok <class_indices> | P` or `err shape`. -/
+def cmdSkProba : P String := do
+  let k ← nat
+  let cls ← many int k
+  let fitted ← bool
+  let est ← listOf int
+  let n ← nat; let w ← nat
+  let estP ← mat optFloat n w
+  let counts ← many float k
+  let ci := classIndices cls est
+  match sklearnPredictProba k n fitted estP ci counts with
+  | .error e => pure (showClfErr e)
+  | .ok Q => pure ("ok " ++ showNats ci ++ " | " ++ showMat Q)
+
+/-- `skpredict <k> cls(k) <fitted> <hasCost> <n> estPred(n ints) P(n*k) C(k*k) noise(n*k) choice(n)` -/
+def cmdSkPredict : P String := do
+  let k ← nat
+  let cls ← many int k
+  let fitted ← bool; let hasCost ← bool
+  let n ← nat
+  let estPred ← many int n
+  let Pm ← mat float n k
+  let C ← mat float k k
+  let noise ← mat float n k
+  let choice ← many nat n
+  pure (showLabels (sklearnPredict cls fitted hasCost estPred Pm C noise choice))
+
+/-- `enshard <k> <n> <e> preds(n*e)` : hard voting on the members' predicted class indices. -/
+def cmdEnsHard : P String := do
+  let k ← nat; let n ← nat; let e ← nat
+  let preds ← mat nat n e
+  pure (showMat (ensembleHard (α := Float) k preds))
+
+/-- `enssoft <k> <n> <e> Ps(n*e*k)` : soft voting; per sample the `e` member rows. -/
+def cmdEnsSoft : P String := do
+  let k ← nat; let n ← nat; let e ← nat
+  let Ps ← many (mat float e k) n
+  pure (showMat (ensembleSoft k Ps))
+
+def handlers : List (String × P String) :=
+  [ ("normfreq", cmdNormFreq), ("pwcproba", cmdPwcProba), ("pwcproba_nn", cmdPwcProbaNN),
+    ("mmcproba", cmdMmcProba), ("predict", cmdPredict), ("decide", cmdDecide),
+    ("skproba", cmdSkProba), ("skpredict", cmdSkPredict), ("enshard", cmdEnsHard),
+    ("enssoft", cmdEnsSoft) ]
 
 end Ska.Drv.Classifier
